@@ -1,1 +1,93 @@
-import KalignModel.Lemmas.Weave
+import KalignModel.Lemmas.Progressive
+/-!
+# C01 — alignment integrity: every input sequence is reproduced exactly
+
+Model: `alignTree` (Model/Progressive.lean) over an arbitrary guide tree and an arbitrary *valid*
+pairwise aligner.  Theorems: one merge preserves the group invariant (`C01_merge_integrity`), hence
+every completed node and the final alignment satisfy it (`C01_tree_integrity`); every input index
+has exactly one row, which degaps to the input residues, and all rows have one length
+(`C01_rows`); the expansion of a well-shaped Hirschberg path is a valid column list
+(`C01_expandPath_valid`).
+-/
+namespace Kalign
+variable {α : Type}
+
+/-- invariant of a completed group -/
+structure GroupOK (seqs : Nat → List α) (g : Group α) : Prop where
+  wf : ∀ m ∈ g, m.seq.WF
+  res : ∀ m ∈ g, m.seq.res = seqs m.idx
+  len : ∀ m ∈ g, m.seq.row.length = g.plen
+  nogapcol : NoAllGapCol (g.map (·.seq.row)) g.plen
+
+theorem C01_merge_integrity (seqs : Nat → List α) (codes : List Nat) (A B : Group α)
+    (hA : GroupOK seqs A) (hB : GroupOK seqs B) (hAne : A ≠ []) (hBne : B ≠ [])
+    (hv : ValidCols (codes.map Col.ofCode) A.plen B.plen) :
+    GroupOK seqs (mergeGroups codes A B) ∧ (mergeGroups codes A B).plen = codes.length := by
+  have _ := hBne
+  obtain ⟨h1, h2, h3, h4, h5⟩ :=
+    merge_ok seqs codes A B hA.wf hA.res hA.len hA.nogapcol hB.wf hB.res hB.len hB.nogapcol hAne hv
+  exact ⟨⟨h1, h2, fun m hm => by rw [h5]; exact h3 m hm, by rw [h5]; exact h4⟩, h5⟩
+
+theorem C01_tree_integrity (seqs : Nat → List α) (al : Aligner α) (hal : al.Valid) (T : Tree) :
+    GroupOK seqs (alignTree seqs al T) ∧
+    ((alignTree seqs al T).map (·.idx)).Perm T.leaves := by
+  obtain ⟨_, h1, h2, h3, h4, h5⟩ := alignTree_ok seqs al hal T
+  exact ⟨⟨h1, h2, h3, h4⟩, h5⟩
+
+/-- one row per input, found under its index, reproducing the residues, all of one length;
+only gap characters (`none`) are added (that is what `degap row = seqs i` says). -/
+theorem C01_rows (seqs : Nat → List α) (al : Aligner α) (hal : al.Valid) (T : Tree)
+    (hnd : T.leaves.Nodup) :
+    ∀ i ∈ T.leaves, ∃ row, finalRow (alignTree seqs al T) i = some row ∧
+      degap row = seqs i ∧ row.length = (alignTree seqs al T).plen :=
+  fun i hi => rows_ok seqs al hal T hnd i hi
+
+/-- no column of the final alignment consists of gaps only -/
+theorem C01_no_allgap_column (seqs : Nat → List α) (al : Aligner α) (hal : al.Valid) (T : Tree) :
+    NoAllGapCol ((alignTree seqs al T).map (·.seq.row)) (alignTree seqs al T).plen :=
+  (C01_tree_integrity seqs al hal T).1.nogapcol
+
+/-- shape of a Hirschberg path that `add_gap_info_to_path_n` expands correctly: partners strictly
+increasing within `1..lenB`; after a run of gap-in-b entries the next partner is the successor of the
+last one (no gap-in-a run adjacent to a gap-in-b run); if the path ends in a gap-in-b run, b is
+used up.  `last` = last partner seen (0 if none), `pg` = previous entry was -1. -/
+def pathOKAux (lenB : Nat) : Int → Bool → List Int → Bool
+  | last, pg, [] => if pg then last == (lenB : Int) else decide (last ≤ (lenB : Int))
+  | last, pg, p :: ps =>
+    if p == -1 then pathOKAux lenB last true ps
+    else (if pg then p == last + 1 else decide (p > last)) && decide (p ≤ (lenB : Int)) &&
+      pathOKAux lenB p false ps
+
+def pathOK (lenB : Nat) (path : List Int) : Bool := pathOKAux lenB 0 false path
+
+/-- glue: the Boolean test implies the Prop-valued shape used by the lemmas -/
+theorem pathShape_of_pathOKAux (lenB : Nat) (last : Int) (pg : Bool) (ps : List Int)
+    (h : pathOKAux lenB last pg ps = true) : PathShape lenB last pg ps := by
+  induction ps generalizing last pg with
+  | nil =>
+    cases pg
+    · exact .nilRes (by simpa [pathOKAux] using h)
+    · exact .nilGap (by simpa [pathOKAux] using h)
+  | cons p ps ih =>
+    unfold pathOKAux at h
+    by_cases hp : p = -1
+    · subst hp
+      exact .gap (ih _ _ (by simpa using h))
+    · rw [if_neg (by simpa using hp)] at h
+      simp only [Bool.and_eq_true, decide_eq_true_eq] at h
+      obtain ⟨⟨h1, h2⟩, h3⟩ := h
+      cases pg
+      · exact .afterRes hp (by simpa using h1) h2 (ih _ _ h3)
+      · exact .afterGap hp (by simpa using h1) h2 (ih _ _ h3)
+
+theorem C01_expandPath_valid (lenB : Nat) (path : List Int) (hb : 1 ≤ lenB) (hne : path ≠ [])
+    (h : pathOK lenB path = true) :
+    ∃ codes, expandPath lenB path = some codes ∧
+      ValidCols (codes.map Col.ofCode) path.length lenB :=
+  expandPath_valid_of_shape lenB path hb hne (pathShape_of_pathOKAux lenB 0 false path h)
+
+/-- non-vacuity: a concrete path with leading, internal and trailing gaps on both sides -/
+example : pathOK 7 [2, 3, -1, -1, 4, 6, 7, -1] = true := by decide
+example : expandPath 7 [2, 3, -1, -1, 4, 6, 7, -1] = some [33, 0, 0, 2, 2, 0, 1, 0, 0, 34] := by decide
+
+end Kalign
